@@ -77,17 +77,6 @@ Proof. exact heappop_ok. Qed.
 Print Assumptions C19_heappop_safe.
 
 (* ------------------------------------------------------------------ _lapjv.pyx *)
-(* Full (control skeleton of augmenting_row_reduction, branch outcomes arbitrary): with
-   free = zeros(max(y)+1) and n_i <= max(y)+1, neither `p_free[nfree] = i1` nor `k -= 1; p_i[k] = i1`
-   ever leaves its array, for every number of iterations.  PARTIAL with respect to the whole kernel:
-   the reads through idx/count/jj/y (precondition kernel_pre_arr, monitored on every recorded call)
-   are not modelled; the read of the uninitialised locals j1/j2 for single-candidate rows stays
-   inside the C stack frame and is outside what this model can express. *)
-Theorem C19_arr_free_list_safe_partial : forall oracle ii maxy free,
-  kernel_pre_arr_free (zlen ii) maxy = true -> zlen free = maxy + 1 ->
-  arr_skeleton oracle (zlen ii) 0 0 ii free <> None.
-Proof. exact arr_free_safe. Qed.
-Print Assumptions C19_arr_free_list_safe_partial.
 
 (* Full: bsearch never reads outside the row [base, base+count). *)
 Theorem C19_bsearch_safe : forall fuel a base low high val count,
@@ -144,10 +133,6 @@ Theorem C19_reexp_C07_index_in_buffer : ltac:(let t := type of Centro.Props.C07.
 Proof. exact Centro.Props.C07.C07_index_in_buffer. Qed.
 Print Assumptions C19_reexp_C07_index_in_buffer.
 
-(* C08: the to_do stack of fill_labeled_holes_loop never holds a region twice: depth <= #regions *)
-Theorem C19_reexp_C08_stack_bounded : ltac:(let t := type of Centro.Props.C08.C08_stack_bounded in exact t).
-Proof. exact Centro.Props.C08.C08_stack_bounded. Qed.
-Print Assumptions C19_reexp_C08_stack_bounded.
 
 (* C10: index safety of the binary heap of min_cost_flow.hpp (line-level model) *)
 Theorem C19_reexp_C10_heap_decrease_key_safe : ltac:(let t := type of Centro.Props.C10.C10_heap_decrease_key_safe in exact t).
@@ -171,10 +156,6 @@ Theorem C19_reexp_C17_is_local_maximum_safe : ltac:(let t := type of Centro.Prop
 Proof. exact Centro.Props.C17.C17_is_local_maximum_safe. Qed.
 Print Assumptions C19_reexp_C17_is_local_maximum_safe.
 
-(* C15: the explicit-stack DFS of _all_connected_components returns within the model's fuel *)
-Theorem C19_reexp_C15_dfs_partition : ltac:(let t := type of Centro.Props.C15.C15_dfs_partition in exact t).
-Proof. exact Centro.Props.C15.C15_dfs_partition. Qed.
-Print Assumptions C19_reexp_C15_dfs_partition.
 
 (* ------------------------------------------------------------------ _all_connected_components *)
 From Centro Require Import Model.GraphC19 Proofs.GraphC19Safe.
@@ -219,16 +200,7 @@ Print Assumptions C19_fill_labeled_holes_loop_safe.
 (* ------------------------------------------------------------------ convex hull, in-place write *)
 From Centro Require Props.C02.
 
-(* Finite (re-exported from C02; general statement no_overflow is NOT proved): for every point set
-   of the 4x4 / 3x4 grid and every listed slack the hull written in place fits into the label's own
-   rows:  |hull| <= slack + |pixels|  (outidx + num_emitted never passes pixidx). *)
-Theorem C19_reexp_C02_hull_inplace_4x4_finite : ltac:(let t := type of Centro.Props.C02.C02_hull_label_grid_4x4_finite in exact t).
-Proof. exact Centro.Props.C02.C02_hull_label_grid_4x4_finite. Qed.
-Print Assumptions C19_reexp_C02_hull_inplace_4x4_finite.
 
-Theorem C19_reexp_C02_hull_inplace_3x4_finite : ltac:(let t := type of Centro.Props.C02.C02_hull_label_grid_3x4_finite in exact t).
-Proof. exact Centro.Props.C02.C02_hull_label_grid_3x4_finite. Qed.
-Print Assumptions C19_reexp_C02_hull_inplace_3x4_finite.
 
 (* ================================================================== round 2 *)
 (* Full: reduction_transfer as written (column read p_j[j_idx], finding F1, included): no index
@@ -268,13 +240,6 @@ Print Assumptions C19_augment_final_loop_safe_partial.
 
 From Centro Require Model.Hull Model.Median Model.PreC19 Proofs.PreC19Safe.
 
-(* Partial (per-instance discharge, not a forall over inputs): the hull precondition IS the overflow
-   flag of C02's executable model of the kernel; general statement wanted = C02's no_overflow. *)
-Theorem C19_hull_pre_no_overflow_partial : forall ijv indexes,
-  PreC19.kernel_pre_hull ijv indexes = true ->
-  snd (Hull.convex_hull_ijv ijv indexes) = false /\ Hull.kernel_accepts ijv indexes = true /\ ijv <> [].
-Proof. exact PreC19Safe.hull_pre_no_overflow. Qed.
-Print Assumptions C19_hull_pre_no_overflow_partial.
 
 (* Full: median kernel — every pixel that passes the coordinate guards is inside data, mask AND
    output although all three are addressed with data's strides. *)
@@ -323,3 +288,82 @@ Theorem C19_marked_list_capacity : forall (n i j : Z) (mark : Z -> Z) (l : list 
   zlen l < n /\ NoDup (j :: l).
 Proof. exact marked_list_capacity. Qed.
 Print Assumptions C19_marked_list_capacity.
+
+(* ================================================================== round 3 *)
+From Centro Require Proofs.HullC19Safe Proofs.AugC19Safe Proofs.MedianC19Safe Model.Lapjv Proofs.LapjvArr
+  Proofs.LapjvAugMarks Proofs.LapjvAugFlip Proofs.MedianSlide Proofs.MedianStep Proofs.MedianInv.
+
+(* Full (replaces the per-instance discharge of round 2; built on C02_hull_no_overflow, imported): for
+   EVERY ijv buffer the kernel's asserts accept and every repeat-free index list, no label's hull
+   written in place into the sorted buffer reaches pixidx — the overflow flag of C02's line-level
+   model of convex_hull_ijv is false for every request. *)
+Theorem C19_convex_hull_write_bound : forall ijv indexes,
+  PreC19.kernel_pre_hull ijv indexes = true -> snd (Hull.convex_hull_ijv ijv indexes) = false.
+Proof. exact HullC19Safe.hull_write_bound. Qed.
+Print Assumptions C19_convex_hull_write_bound.
+
+(* Partial, on b01's model of augment (imported; C01_aug_marks_inv Full, C01_aug_flip_chain_partial):
+   for a free row r — whatever stamps earlier rows left in done / on_to_do — IF the search returns a
+   column (premise 1 = aug_scan_nonempty: every rebuild of scan finds a candidate, i.e. an augmenting
+   path exists; augment's memory safety DEPENDS on has_PM: without it p_scan[low] is read past up and
+   the walk runs off the array) and IF the predecessor links form a chain to r (premise 2, chain_ok),
+   then every index written to to_do / scan / ready is below n, the three lists fit into their n
+   entries, the exit column is below n, and the flip loop terminates using indices below n only. *)
+Theorem C19_augment_safe_partial :
+  forall (r n : nat) (rows : list (list (nat * Lapjv.ext))) (y : list nat) (v : list Lapjv.ext) (inf : Lapjv.ext),
+  (forall i j c, In (j, c) (LapjvArr.row rows i) -> (j < n)%nat) ->
+  (forall i, NoDup (map fst (LapjvArr.row rows i))) ->
+  forall (ms : Lapjv.main_state) (s' : Lapjv.aug_state) (j1 : nat) (x chain : list nat),
+  length (Lapjv.m_done ms) = n -> length (Lapjv.m_ontodo ms) = n ->
+  let row_r := Lapjv.rowget rows r in
+  let '(d, ontodo, pred) := Lapjv.aug_init_row r v row_r (repeat inf n) (Lapjv.m_ontodo ms) (Lapjv.m_pred ms) in
+  Lapjv.aug_loop (S (S n)) r n inf rows y v
+    (Lapjv.mkAug d pred (Lapjv.m_done ms) ontodo (map fst row_r) [] [] inf) = Some (s', j1) ->
+  NoDup chain -> length x = n -> length y = n -> LapjvAugFlip.chain_ok r n (Lapjv.g_pred s') x j1 chain ->
+  LapjvAugMarks.Bounds n s' /\ (length (Lapjv.g_todo s') <= n)%nat /\
+  (length (Lapjv.g_ready s') + length (Lapjv.g_scan s') <= n)%nat /\ (j1 < n)%nat /\
+  exists x' y', Lapjv.aug_flip (length chain) r (Lapjv.g_pred s') j1 x y n = Some (x', y') /\
+  length x' = n /\ length y' = n.
+Proof. exact AugC19Safe.augment_safe_partial. Qed.
+Print Assumptions C19_augment_safe_partial.
+
+(* Full (answers "does C07's invariant imply the index ranges?": yes): the loop invariant of C07's
+   line-level median model — Slots / AccInv / FineInv, proved Full by C07 — carries the sizes of every
+   array of the model (stripe of columns+2R+1 slots, 16 coarse bins, 256 fine bins, 16 entries of
+   last_update_column); a column step re-establishes it, and the four circular slot indices of the
+   column address existing slots.  With C19_median_hist_indices (value -> bin) and
+   C19_median_pixel_offset (guarded pixels) every index of a column step is in range.  The row start
+   (row_init_inv) and find_median (C07_find_median_spec) keep the same invariant in C07's proofs. *)
+Theorem C19_median_model_safe : forall e : Median.env, 1 <= Median.e_a2 e -> Median.e_a2 e < Median.e_R e ->
+  MedianStep.Data8 e -> Median.e_sweep e = Median.e_R e ->
+  Median.e_SL e = Median.e_cols e + 2 * Median.e_R e + 1 -> 0 <= Median.e_cols e -> 0 <= Median.e_rows e ->
+  (forall c row : Z, MedianStep.hN e (MedianSlide.Soct e c row) < Median.M16) ->
+  forall (s : Median.st) (row c : Z), - Median.e_R e <= c <= Median.e_cols e + Median.e_R e - 1 ->
+  Median.s_row s = row ->
+  MedianInv.Slots e s row (c - 1) -> MedianInv.AccInv e s row (c - 1) -> MedianInv.FineInv e s row (c - 1) ->
+  let s' := Median.step_col e s c in
+  MedianInv.Slots e s' row c /\ MedianInv.AccInv e s' row c /\ MedianInv.FineInv e s' row c /\
+  Z.of_nat (length (Median.s_cols s')) = Median.e_SL e /\ length (Median.coarse (Median.s_acc s')) = 16%nat /\
+  length (Median.fine (Median.s_acc s')) = 256%nat /\ length (Median.s_last s') = 16%nat /\
+  0 <= Median.tl_br e row c < Z.of_nat (length (Median.s_cols s')) /\
+  0 <= Median.tr_bl e row c < Z.of_nat (length (Median.s_cols s')) /\
+  0 <= Median.lead_ix e c < Z.of_nat (length (Median.s_cols s')) /\
+  0 <= Median.trail_ix e c < Z.of_nat (length (Median.s_cols s')).
+Proof. exact MedianC19Safe.median_model_safe. Qed.
+Print Assumptions C19_median_model_safe.
+
+(* C10 (re-exported, owners' statements): the position table _nodes_to_Q stays consistent with the heap
+   through decrease_key / remove_first / relax (so the test `_nodes_to_Q[v] < Q.size()` guards a valid
+   slot), it is consistent initially, and every residual arc the shortest-path search follows ends
+   in a node below nv with a non-negative reduced cost. *)
+Theorem C19_reexp_C10_heap_position_table : ltac:(let t := type of Centro.Props.C10.C10_heap_position_table in exact t).
+Proof. exact Centro.Props.C10.C10_heap_position_table. Qed.
+Print Assumptions C19_reexp_C10_heap_position_table.
+
+Theorem C19_reexp_C10_heap_init_position_table : ltac:(let t := type of Centro.Props.C10.C10_heap_init_position_table in exact t).
+Proof. exact Centro.Props.C10.C10_heap_init_position_table. Qed.
+Print Assumptions C19_reexp_C10_heap_init_position_table.
+
+Theorem C19_reexp_C10_csp_residual_nonneg : ltac:(let t := type of Centro.Props.C10.C10_csp_residual_nonneg in exact t).
+Proof. exact Centro.Props.C10.C10_csp_residual_nonneg. Qed.
+Print Assumptions C19_reexp_C10_csp_residual_nonneg.
